@@ -37,6 +37,7 @@ class Box:
         self.inner_default = None   # default factory of the containers stored in this one
         self.frozen = False
         self.cd = None         # concrete-key mode of a dict literal: python dict key -> value (heterogeneous values)
+        self.counter = False   # collections.Counter semantics: a missing key reads as 0 (no insertion)
 
     @property
     def e(self):
